@@ -99,6 +99,17 @@ def generate(seed, tier="quick"):
         for st in steps:
             if rrng.random() < 0.4:
                 st["review"] = True
+    zrng = sub(seed, "samesize")
+    if zrng.random() < 0.18:
+        # a fix that keeps the size of the file (one digit becomes another), followed by sessions in the same directory that approve nothing / fix again:
+        # what they report is computed from the rewritten source (the real plugin over one persistent directory with bytecode caches)
+        driver = "plugin"
+        a, b = zrng.sample(range(1, 10), 2)
+        f = sorted(prog["files"], key=lambda f: f["name"])[0]
+        op = zrng.choice(["eq", "le", "ge"])
+        f["sites"]["zs"] = {"op": op, "place": "direct", "arg": str(a), "prev": ["int", a]}
+        zrng.choice(f["tests"])["events"].append({"t": "cmp", "eid": "ezs", "site": "zs", "vals": [["int", b if op == "eq" else (max(a, b) if op == "le" else min(a, b))]], "style": "rec"})
+        steps = [{"approved": ["fix"]}, {"approved": []}, {"approved": ["fix"]}]
     W.sprinkle_uni(prog, sub(seed, "uni"), 0.08)
     return {"program": prog, "steps": steps, "driver": driver, "fmt": draw_fmt(sub(seed, "fmt")),
             "profile": {"scalars": prof.scalars, "containers": prof.containers, "calls": prof.calls, "special": prof.special,
